@@ -73,6 +73,12 @@ def reader_texts():
     yield "names-with-a-leading-underscore", "INPUT(_a)\nINPUT(b)\nOUTPUT(_o)\n_n = OR(_a, b)\n_o = AND(_n, _a)\n", ["_a", "b"], ["_o"], {"_n": lambda v: v["_a"] or v["b"], "_o": lambda v: (v["_a"] or v["b"]) and v["_a"]}
     yield "the-same-net-twice-on-a-parity-gate", "INPUT(a)\nINPUT(b)\nOUTPUT(o)\nOUTPUT(p)\nOUTPUT(r)\no = XOR(a, a)\np = XNOR(a, a)\nr = XOR(a, b, a)\n", ["a", "b"], ["o", "p", "r"], \
         {"o": lambda v: False, "p": lambda v: True, "r": lambda v: v["b"]}
+    yield "the-same-net-three-and-four-times-on-a-parity-gate", "INPUT(a)\nINPUT(b)\nOUTPUT(o)\nOUTPUT(p)\nOUTPUT(r)\nOUTPUT(s)\no = XOR(a, b, a, a)\np = XNOR(a, a, a)\nr = XOR(a, a, b, a, a)\ns = XNOR(b, a, b, a, b)\n", \
+        ["a", "b"], ["o", "p", "r", "s"], {"o": lambda v: v["a"] != v["b"], "p": lambda v: not v["a"], "r": lambda v: v["b"], "s": lambda v: not v["b"]}
+    # `#` starts a comment that runs to the end of the line (the bundled netlists open with one): a commented-out gate, declaration or
+    # DFF is not part of the circuit, wherever it stands
+    yield "comments-with-statements-in-them", "# o = OR(a, b)\n# INPUT(zz)\nINPUT(a)  # first\nINPUT(b)\nOUTPUT(o)\n#OUTPUT(n1)\nn1 = NAND(a, b)  # n1 = AND(a, b)\no = NOT(n1)\n# o = BUF(a)\n#q = DFF(o)\n", \
+        ["a", "b"], ["o"], {"n1": lambda v: not (v["a"] and v["b"]), "o": lambda v: v["a"] and v["b"]}
     yield "the-same-net-twice-on-an-idempotent-gate", "INPUT(a)\nINPUT(b)\nOUTPUT(o)\nOUTPUT(p)\no = AND(a, a, b)\np = NOR(b, b)\n", ["a", "b"], ["o", "p"], {"o": lambda v: v["a"] and v["b"], "p": lambda v: not v["b"]}
     yield "output-is-input", "INPUT(a)\nINPUT(b)\nOUTPUT(a)\nOUTPUT(g)\ng = AND(a, b)\n", ["a", "b"], ["a", "g"], {"g": lambda v: v["a"] and v["b"], "a": lambda v: v["a"]}
 
@@ -146,6 +152,32 @@ def run(chk):
             if prob is None and r[1].name != "t":
                 prob = {"problem": "name not set", "name": r[1].name}
         chk.ob("C15.R.reader", name, prob is None, file=FILE, func="bench_to_circuit", line=fr_.node.lineno, fact=prob or {"text": text[:80]}, expect="declared io; every net computes what the text denotes")
+    # net names the library cannot hold (the numeric names of the original ISCAS files): refused, not dropped line by line
+    for name, text in (("numeric-net-names", "INPUT(1)\nINPUT(2)\nOUTPUT(3)\n3 = NAND(1, 2)\n"), ("numeric-gate-name-only", "INPUT(a)\nINPUT(b)\nOUTPUT(o)\n10 = NAND(a, b)\no = NOT(a)\n")):
+        r = P.call(FILE, "bench_to_circuit", text, "t")
+        n += 1
+        prob = None if (r[0] == "raise" and r[1] == "ValueError") else {"problem": "a text whose net names cannot be held is read as a (partial) circuit", "result": str(r)[:100],
+                                                                         "nodes": sorted(r[1].nodes()) if r[0] == "return" and isinstance(r[1], RefCircuit) else None}
+        chk.ob("C15.R.reader", name, prob is None, file=FILE, func="bench_to_circuit", line=fr_.node.lineno, fact=prob or {"text": text[:80]}, expect="ValueError (a name that starts with a digit cannot be a node)")
+    # ---- F: through files: the format given wins over the extension (documented for from_file) ------------
+    from .c03 import MemFS, MPath
+
+    fs = MemFS()
+    env_io = P.env(FILE)
+    env_io["open"] = fs.open
+    env_io["Path"] = MPath
+    MPath._fs = fs
+    btext = "INPUT(a)\nINPUT(b)\nOUTPUT(o)\nn1 = NOR(a, b)\no = NOT(n1)\n"
+    for path, fmt in (("/mem/t.bench", None), ("/mem/t.v", "bench"), ("/mem/t.txt", "bench")):
+        fs.files[path] = btext
+        fs.touch(path)
+        r = P.call(FILE, "from_file", path, "t", fmt)
+        n += 1
+        if r[0] != "return" or not isinstance(r[1], RefCircuit):
+            prob = {"problem": "not read as a bench file", "result": str(r)[:160]}
+        else:
+            prob = check_nets(r[1], ["a", "b"], ["o"], {"o": lambda v: v["a"] or v["b"]})
+        chk.ob("C15.F.files", f"from_file::{path.rsplit('/', 1)[1]}::fmt={fmt}", prob is None, file=FILE, func="from_file", fact=prob or {}, expect="read with the bench reader")
     # DFF lines
     for case in ("DFF", "dff"):
         text = f"INPUT(x)\nOUTPUT(y)\nq = {case}(d)\nd = XOR(x, q)\ny = AND(x, q)\n"
